@@ -233,14 +233,17 @@ fn parse_integer(string: &str, require_sign: bool) -> Result<Option<Integer>, er
         };
 
         // Re-checked later on convert to smaller int types
-        if integer > IntegerValue::MAX / prefix.radix as IntegerValue {
+        // Both steps are checked: `integer * radix` may fit while adding the digit does not
+        // (eg. "2147483648")
+        let Some(next) = integer
+            .checked_mul(prefix.radix as IntegerValue)
+            .and_then(|shifted| shifted.checked_add(digit as IntegerValue))
+        else {
             return Err(error::Value::IntegerTooLarge {
                 max: i16::MAX as u16,
             });
-        }
-
-        integer *= prefix.radix as IntegerValue;
-        integer += digit as IntegerValue;
+        };
+        integer = next;
     }
 
     assert!(
